@@ -126,7 +126,7 @@ def check(name, decls, ufs, asserts, timeout_s=60, want_model_of=None, solvers=(
     # byte buffers (uninterpreted Int -> Int): ask for their first bytes so that counterexamples can be replayed
     for fn_, (rs, args) in sorted(ufs.items()):
         if rs == "Int" and tuple(args) == ("Int",):
-            gv = gv + tuple(f"({fn_} {i})" for i in range(48))
+            gv = gv + tuple(f"({fn_} {i})" for i in range(192))
     text = script(decls, ufs, asserts, gv)
     res, wall = run_solvers(text, timeout_s, solvers)
     per = {}
